@@ -928,3 +928,27 @@ Definition ro_names : list str := [[97]; [98]]%N.
 Definition ro_keys : list str := [[99]; [97]]%N.
 Lemma forbid_two_refuted : forbid_valid ro_names ro_keys = true /\ sends_no_readonly ro_names ro_keys = false.
 Proof. split; vm_compute; reflexivity. Qed.
+
+Lemma converted_one props required ro closed keys : readonly_le1' ro = true ->
+  converted_accepts props required ro closed keys = request_view_accepts props required ro closed keys.
+Proof.
+  intros H. unfold converted_accepts, request_view_accepts. destruct ro as [|n [|n' ro]]; try discriminate.
+  - reflexivity.
+  - rewrite (forbid_one [n] keys eq_refl). reflexivity.
+Qed.
+
+(* closed objects cannot leak: the extra key would have to be a remaining property name *)
+Lemma converted_closed_clean props required ro keys :
+  converted_accepts props required ro true keys = true -> sends_no_readonly ro keys = true.
+Proof.
+  unfold converted_accepts, sends_no_readonly. intros H. apply andb_true_iff in H. destruct H as [_ H].
+  cbn [negb orb] in H. apply negb_true_iff. apply not_true_iff_false. intros E.
+  apply existsb_exists in E. destruct E as (n & Hn & Hk).
+  unfold has_key in Hk. apply existsb_exists in Hk. destruct Hk as (k & Hk & Ek). apply str_eqb_spec in Ek. subst k.
+  unfold subset_keys in H. rewrite forallb_forall in H. specialize (H n Hk).
+  unfold has_key in H. apply existsb_exists in H. destruct H as (r & Hr & Er). apply str_eqb_spec in Er. subst r.
+  unfold remove_names in Hr. apply filter_In in Hr. destruct Hr as [_ Hr].
+  apply negb_true_iff in Hr. unfold has_key in Hr.
+  assert (existsb (str_eqb n) ro = true) by (apply existsb_exists; exists n; split; [exact Hn | apply str_eqb_refl]).
+  congruence.
+Qed.
